@@ -1,7 +1,8 @@
 """C21 — frame and microframe numbers track received SOFs (USBDevice, luna/gateware/usb/usb2/device.py).
 
 Unit under contract: the real `USBDevice` on a raw UTMI bus (its real `USBTokenDetector`, reset sequencer, receiver, ...
-are all in the netlist).  The contract is end-to-end from the UTMI receive pins: the ghost state is the byte history of
+are all in the netlist), bare and with a standard control endpoint; and on a ULPI PHY (60 MHz, high-speed capable: the
+real UTMITranslator is in the netlist and the SOF history is observed at its UTMI outputs, UTMI-wf assumed there).  The contract is end-to-end from the UTMI receive pins: the ghost state is the byte history of
 the current packet (`common.UTMIRx`), "a well-formed SOF ended in the previous cycle" (`ev`, with its 11-bit number
 `evf`), and the *specified* frame / microframe numbers `gF`, `gM` computed from the sequence of SOFs exactly as the
 statement says.  The invariant is the abstraction map (token detector FSM <-> bytes seen, as in C01, plus
@@ -23,8 +24,10 @@ EXPLANATION = ("1-induction over the transition system extracted from the real U
                "from the UTMI byte history by the spec-side CRC5/PID functions, not by the design's token detector.")
 
 
-def make(with_control_endpoint):
+def make(with_control_endpoint, ulpi=False):
     def contract(c):
+        if ulpi:
+            return contract_ulpi(c)
         utmi = UTMIInterface()
         d = USBDevice(bus=utmi)
         if with_control_endpoint:
@@ -55,88 +58,111 @@ def make(with_control_endpoint):
         }
         ts = c.unit(d, ports)
         I, O = ts.inputs, ts.outputs
-        rx = UTMIRx(c, I["rx_active"], I["rx_valid"], I["rx_data"], nbytes=3, cntw=3)
-        b0, b1, b2 = rx.b
-        inpkt = rx.prev_active == 1
-        pid4 = bits(b0, 3, 0)
-        # ---- from the statement / USB 2.0 §8.4.3: a well-formed SOF = 3-byte packet, PID SOF with valid check nibble,
-        #      11-bit frame number, valid CRC5
-        is_tok = z3.And(spec.pid_valid(b0), z3.Or(*[pid4 == p for p in
-                        (spec.PID_IN, spec.PID_OUT, spec.PID_SETUP, spec.PID_PING, spec.PID_SOF)]))
-        data11 = z3.Concat(bits(b2, 2, 0), b1)
-        crc_ok = bits(b2, 7, 3) == spec.usb2_crc5(data11)
-        sof_event = z3.And(rx.ends_now, rx.n == 3, spec.pid_valid(b0), pid4 == spec.PID_SOF, crc_ok)
-
-        # ---- spec-side history: SOF seen in the previous cycle, and the specified frame/microframe numbers
-        ev = c.ghost("ev", 1, init=0)            # a well-formed SOF ended in the previous cycle
-        evf = c.ghost("evf", 11, init=0)         # ... its frame number
-        gF = c.ghost("gF", 11, init=0)           # specified frame number = number carried by the most recent SOF
-        gM = c.ghost("gM", 3, init=0)            # specified microframe number
-        c.set_next(ev, bv1(sof_event))
-        c.set_next(evf, z3.If(sof_event, data11, evf))
-        changes = z3.And(ev == 1, evf != gF)     # this SOF changes the frame number
-        repeats = z3.And(ev == 1, evf == gF)     # this SOF repeats the current frame number
-        c.set_next(gF, z3.If(ev == 1, evf, gF))
-        c.set_next(gM, z3.If(changes, bvc(0, 3), z3.If(repeats, gM + 1, gM)))
-
-        # ---- abstraction map.  Token detector (same map as C01, on the instance inside the device):
-        fsm = ts.fsm("token_detector.fsm_state")
-        td = lambda n: ts.sig("token_detector." + n)
-        c.inv("td_fsm_legal", fsm.legal())
-        c.inv("td_idle", fsm.is_("IDLE") == z3.Not(inpkt))
-        c.inv("td_read_pid", fsm.is_("READ_PID") == z3.And(inpkt, rx.n == 0))
-        c.inv("td_read_token_0", fsm.is_("READ_TOKEN_0") == z3.And(inpkt, rx.n == 1, is_tok))
-        c.inv("td_read_token_1", fsm.is_("READ_TOKEN_1") == z3.And(inpkt, rx.n == 2, is_tok))
-        c.inv("td_token_complete", fsm.is_("TOKEN_COMPLETE") == z3.And(inpkt, rx.n == 3, is_tok, crc_ok))
-        c.inv("td_pid_captured", z3.Implies(z3.And(inpkt, z3.UGE(rx.n, 1), is_tok), td("current_pid") == pid4))
-        c.inv("td_byte1_captured", z3.Implies(z3.And(inpkt, z3.UGE(rx.n, 2), is_tok), bits(td("token_data"), 7, 0) == b1))
-        c.inv("td_byte2_captured", z3.Implies(fsm.is_("TOKEN_COMPLETE"), bits(td("token_data"), 10, 8) == bits(b2, 2, 0)))
-        c.inv("td_new_frame_is_sof_event", (td("new_frame") == 1) == (ev == 1))
-        c.inv("td_frame_is_sof_number", z3.Implies(ev == 1, td("frame") == evf))
-        # device registers = specified numbers
-        c.inv("frame_number_is_spec", ts.sig("frame_number") == gF)
-        c.inv("microframe_number_is_spec", ts.sig("microframe_number") == gM)
-
-        # ---- ensures, clause by clause
-        n = c.nx
-        c.ensure("frame_number_equals_sof_number",
-                 z3.Implies(sof_event, n(O["frame_number"], 2) == data11),
-                 clause="after each well-formed SOF, the reported frame number equals the SOF's 11-bit frame number")
-        c.ensure("frame_number_changes_only_by_sof",
-                 n(O["frame_number"]) == z3.If(ev == 1, evf, O["frame_number"]),
-                 clause="the reported frame number is the number of the most recent well-formed SOF (other packets, malformed "
-                        "or foreign tokens leave it unchanged)")
-        c.ensure("microframe_reset_when_frame_changes",
-                 z3.Implies(z3.And(ev == 1, evf != O["frame_number"]), n(O["microframe_number"]) == 0),
-                 clause="the microframe number is reset to 0 when the frame number changes")
-        c.ensure("microframe_incremented_when_sof_repeats",
-                 z3.Implies(z3.And(ev == 1, evf == O["frame_number"]), n(O["microframe_number"]) == O["microframe_number"] + 1),
-                 clause="the microframe number is incremented (mod 8) when a SOF repeats the current frame number")
-        c.ensure("microframe_unchanged_without_sof",
-                 z3.Implies(ev == 0, n(O["microframe_number"]) == O["microframe_number"]),
-                 clause="(frame) without a SOF the microframe number does not change")
-        c.ensure("new_frame_iff_frame_number_changes",
-                 (O["new_frame"] == 1) == z3.And(ev == 1, evf != O["frame_number"]),
-                 clause="a new-frame strobe is raised exactly when the frame number changes (one cycle, with the SOF event)")
-        c.ensure("new_frame_iff_register_changes",
-                 (O["new_frame"] == 1) == (n(O["frame_number"]) != O["frame_number"]),
-                 clause="a new-frame strobe is raised exactly when the frame number changes")
-        c.ensure("sof_detected_iff_sof", (n(O["sof_detected"]) == 1) == sof_event,
-                 clause="sof_detected pulses once for each well-formed SOF (regardless of address) and for nothing else")
-        c.ensure("outputs_are_spec_numbers", z3.And(O["frame_number"] == gF, O["microframe_number"] == gM),
-                 clause="frame/microframe numbers equal the numbers defined by the statement over the whole SOF history")
-
-        # ---- vacuity guards
-        c.cover("sof_seen", O["sof_detected"] == 1)
-        c.cover("new_frame_strobe", O["new_frame"] == 1)
-        c.cover("sof_repeats_frame", z3.And(O["sof_detected"] == 1, O["new_frame"] == 0))
-        c.cover("microframe_2", O["microframe_number"] == 2)
-        c.cover("frame_changes_after_microframes", z3.And(O["microframe_number"] == 1, O["new_frame"] == 1))
-        c.cover("frame_number_0x7ff", O["frame_number"] == 0x7FF)
-        c.cover_depth = 30
+        body(c, ts, I["rx_active"], I["rx_valid"], I["rx_data"])
     return contract
+
+
+def contract_ulpi(c):
+    """High-speed capable device on a ULPI PHY (60 MHz, the configuration in which microframes exist).  The UTMI receive
+    signals are then the outputs of the real UTMITranslator inside the device; the SOF history is observed there and
+    UTMI-wf at that boundary is an assumption here (it is an ensures of the ULPI translator contract, C22)."""
+    from amaranth.hdl.rec import Record
+    u = Record([('data', [('i', 8), ('o', 8), ('oe', 1)]), ('clk', [('o', 1)]), ('nxt', [('i', 1)]), ('stp', [('o', 1)]),
+                ('dir', [('i', 1)]), ('rst', [('o', 1)])])
+    d = USBDevice(bus=u, handle_clocking=False)
+    ports = {"data_i": u.data.i, "nxt": u.nxt.i, "dir": u.dir.i,
+             "connect": d.connect, "low_speed_only": d.low_speed_only, "full_speed_only": d.full_speed_only,
+             "frame_number": d.frame_number, "microframe_number": d.microframe_number,
+             "sof_detected": d.sof_detected, "new_frame": d.new_frame}
+    ts = c.unit(d, ports)
+    body(c, ts, ts.sig("translator.rx_active"), ts.sig("translator.rx_valid"), ts.sig("translator.rx_data"))
+
+
+def body(c, ts, rx_active, rx_valid, rx_data):
+    I, O = ts.inputs, ts.outputs
+    rx = UTMIRx(c, rx_active, rx_valid, rx_data, nbytes=3, cntw=3)
+    b0, b1, b2 = rx.b
+    inpkt = rx.prev_active == 1
+    pid4 = bits(b0, 3, 0)
+    # ---- from the statement / USB 2.0 §8.4.3: a well-formed SOF = 3-byte packet, PID SOF with valid check nibble,
+    #      11-bit frame number, valid CRC5
+    is_tok = z3.And(spec.pid_valid(b0), z3.Or(*[pid4 == p for p in
+                    (spec.PID_IN, spec.PID_OUT, spec.PID_SETUP, spec.PID_PING, spec.PID_SOF)]))
+    data11 = z3.Concat(bits(b2, 2, 0), b1)
+    crc_ok = bits(b2, 7, 3) == spec.usb2_crc5(data11)
+    sof_event = z3.And(rx.ends_now, rx.n == 3, spec.pid_valid(b0), pid4 == spec.PID_SOF, crc_ok)
+
+    # ---- spec-side history: SOF seen in the previous cycle, and the specified frame/microframe numbers
+    ev = c.ghost("ev", 1, init=0)            # a well-formed SOF ended in the previous cycle
+    evf = c.ghost("evf", 11, init=0)         # ... its frame number
+    gF = c.ghost("gF", 11, init=0)           # specified frame number = number carried by the most recent SOF
+    gM = c.ghost("gM", 3, init=0)            # specified microframe number
+    c.set_next(ev, bv1(sof_event))
+    c.set_next(evf, z3.If(sof_event, data11, evf))
+    changes = z3.And(ev == 1, evf != gF)     # this SOF changes the frame number
+    repeats = z3.And(ev == 1, evf == gF)     # this SOF repeats the current frame number
+    c.set_next(gF, z3.If(ev == 1, evf, gF))
+    c.set_next(gM, z3.If(changes, bvc(0, 3), z3.If(repeats, gM + 1, gM)))
+
+    # ---- abstraction map.  Token detector (same map as C01, on the instance inside the device):
+    fsm = ts.fsm("token_detector.fsm_state")
+    td = lambda n: ts.sig("token_detector." + n)
+    c.inv("td_fsm_legal", fsm.legal())
+    c.inv("td_idle", fsm.is_("IDLE") == z3.Not(inpkt))
+    c.inv("td_read_pid", fsm.is_("READ_PID") == z3.And(inpkt, rx.n == 0))
+    c.inv("td_read_token_0", fsm.is_("READ_TOKEN_0") == z3.And(inpkt, rx.n == 1, is_tok))
+    c.inv("td_read_token_1", fsm.is_("READ_TOKEN_1") == z3.And(inpkt, rx.n == 2, is_tok))
+    c.inv("td_token_complete", fsm.is_("TOKEN_COMPLETE") == z3.And(inpkt, rx.n == 3, is_tok, crc_ok))
+    c.inv("td_pid_captured", z3.Implies(z3.And(inpkt, z3.UGE(rx.n, 1), is_tok), td("current_pid") == pid4))
+    c.inv("td_byte1_captured", z3.Implies(z3.And(inpkt, z3.UGE(rx.n, 2), is_tok), bits(td("token_data"), 7, 0) == b1))
+    c.inv("td_byte2_captured", z3.Implies(fsm.is_("TOKEN_COMPLETE"), bits(td("token_data"), 10, 8) == bits(b2, 2, 0)))
+    c.inv("td_new_frame_is_sof_event", (td("new_frame") == 1) == (ev == 1))
+    c.inv("td_frame_is_sof_number", z3.Implies(ev == 1, td("frame") == evf))
+    # device registers = specified numbers
+    c.inv("frame_number_is_spec", ts.sig("frame_number") == gF)
+    c.inv("microframe_number_is_spec", ts.sig("microframe_number") == gM)
+
+    # ---- ensures, clause by clause
+    n = c.nx
+    c.ensure("frame_number_equals_sof_number",
+             z3.Implies(sof_event, n(O["frame_number"], 2) == data11),
+             clause="after each well-formed SOF, the reported frame number equals the SOF's 11-bit frame number")
+    c.ensure("frame_number_changes_only_by_sof",
+             n(O["frame_number"]) == z3.If(ev == 1, evf, O["frame_number"]),
+             clause="the reported frame number is the number of the most recent well-formed SOF (other packets, malformed "
+                    "or foreign tokens leave it unchanged)")
+    c.ensure("microframe_reset_when_frame_changes",
+             z3.Implies(z3.And(ev == 1, evf != O["frame_number"]), n(O["microframe_number"]) == 0),
+             clause="the microframe number is reset to 0 when the frame number changes")
+    c.ensure("microframe_incremented_when_sof_repeats",
+             z3.Implies(z3.And(ev == 1, evf == O["frame_number"]), n(O["microframe_number"]) == O["microframe_number"] + 1),
+             clause="the microframe number is incremented (mod 8) when a SOF repeats the current frame number")
+    c.ensure("microframe_unchanged_without_sof",
+             z3.Implies(ev == 0, n(O["microframe_number"]) == O["microframe_number"]),
+             clause="(frame) without a SOF the microframe number does not change")
+    c.ensure("new_frame_iff_frame_number_changes",
+             (O["new_frame"] == 1) == z3.And(ev == 1, evf != O["frame_number"]),
+             clause="a new-frame strobe is raised exactly when the frame number changes (one cycle, with the SOF event)")
+    c.ensure("new_frame_iff_register_changes",
+             (O["new_frame"] == 1) == (n(O["frame_number"]) != O["frame_number"]),
+             clause="a new-frame strobe is raised exactly when the frame number changes")
+    c.ensure("sof_detected_iff_sof", (n(O["sof_detected"]) == 1) == sof_event,
+             clause="sof_detected pulses once for each well-formed SOF (regardless of address) and for nothing else")
+    c.ensure("outputs_are_spec_numbers", z3.And(O["frame_number"] == gF, O["microframe_number"] == gM),
+             clause="frame/microframe numbers equal the numbers defined by the statement over the whole SOF history")
+
+    # ---- vacuity guards
+    c.cover("sof_seen", O["sof_detected"] == 1)
+    c.cover("new_frame_strobe", O["new_frame"] == 1)
+    c.cover("sof_repeats_frame", z3.And(O["sof_detected"] == 1, O["new_frame"] == 0))
+    c.cover("microframe_2", O["microframe_number"] == 2)
+    c.cover("frame_changes_after_microframes", z3.And(O["microframe_number"] == 1, O["new_frame"] == 1))
+    c.cover("frame_number_0x7ff", O["frame_number"] == 0x7FF)
+    c.cover_depth = 30
+    c.bmc_depth = max(c.bmc_depth, 40)
 
 
 def contracts(tier):
     yield ("USBDevice", "utmi_bare", make(False))
     yield ("USBDevice", "utmi_std_control_ep", make(True))
+    yield ("USBDevice", "ulpi_60MHz", make(False, ulpi=True))
